@@ -39,6 +39,89 @@ def _factors(e: ast.AST) -> List[ast.AST]:
   return [e]
 
 
+def _muldiv(e: ast.AST, nums: List[ast.AST], dens: List[ast.AST], inv: bool = False):
+  if isinstance(e, ast.BinOp) and isinstance(e.op, ast.Mult):
+    _muldiv(e.left, nums, dens, inv)
+    _muldiv(e.right, nums, dens, inv)
+  elif isinstance(e, ast.BinOp) and isinstance(e.op, ast.Div):
+    _muldiv(e.left, nums, dens, inv)
+    _muldiv(e.right, nums, dens, not inv)
+  else:
+    (dens if inv else nums).append(e)
+
+
+def _is_sign(ff: FuncFlow, e: ast.AST) -> Optional[ast.Call]:
+  if isinstance(e, ast.Call) and ff.ext(e.func) == 'jax.random.rademacher':
+    return e
+  if isinstance(e, ast.Name):
+    for d in ff.defs_for(e):
+      if isinstance(d.value, ast.Call) and ff.ext(d.value.func) == 'jax.random.rademacher':
+        return d.value
+  return None
+
+
+def _analyse(ff: FuncFlow, e: ast.AST):
+  """Decomposes  [signs *] transform([signs *] vec) [* signs] / scale  into its ingredients; None when there is no transform."""
+  nums: List[ast.AST] = []
+  dens: List[ast.AST] = []
+  _muldiv(e, nums, dens)
+  tr = [f for f in nums if isinstance(f, ast.Call) and wmean.repo_fn(ff, f) == WHT and f.args]
+  if len(tr) != 1 or any(isinstance(f, ast.Call) and wmean.repo_fn(ff, f) == WHT for f in dens):
+    return None
+  T = tr[0]
+  out = dict(T=T, extra=False, sign_pos=None, sign_def=None, scale=None, length=None, vec=None)
+  inner = _factors(T.args[0])
+  in_signs = [f for f in inner if _is_sign(ff, f) is not None]
+  in_vec = [f for f in inner if _is_sign(ff, f) is None]
+  if len(in_vec) != 1 or len(in_signs) > 1:
+    out['extra'] = True
+  else:
+    out['vec'] = in_vec[0]
+  out_signs = [f for f in nums if f is not T and _is_sign(ff, f) is not None]
+  rest = [f for f in nums if f is not T and _is_sign(ff, f) is None]
+  n_in, n_out = len(in_signs), len(out_signs)
+  if n_in + n_out == 1:
+    out['sign_pos'] = 'inside' if n_in else 'outside'
+    out['sign_def'] = _is_sign(ff, (in_signs or out_signs)[0])
+  elif n_in + n_out == 0:
+    out['sign_pos'] = 'none'
+  else:
+    out['sign_pos'] = 'both'
+  # scale: exactly one of  / sqrt(L),  * (1 / sqrt(L)),  * L ** -0.5,  / L (wrong),  nothing (wrong)
+  scales = []
+  for f in dens:
+    if isinstance(f, ast.Call) and ff.ext(f.func) in SQRT and f.args:
+      scales.append(('sqrt', f.args[0]))
+    else:
+      scales.append(('raw', f))
+  for f in rest:
+    if isinstance(f, ast.BinOp) and isinstance(f.op, ast.Pow):
+      try:
+        ex = ast.literal_eval(f.right)
+      except Exception:  # pylint: disable=broad-except
+        ex = None
+      if ex == -0.5:
+        scales.append(('sqrt', f.left))
+      elif ex == -1:
+        scales.append(('raw', f.left))
+      else:
+        out['extra'] = True
+    elif isinstance(f, ast.Constant) and f.value == 1:
+      pass
+    else:
+      out['extra'] = True
+  if len(scales) == 1:
+    kind, L = scales[0]
+    if kind == 'raw' and not (isinstance(L, ast.Name) or txt(L).endswith('.size') or txt(L).startswith('len(')):
+      out['extra'] = True   # a denominator that is not obviously a length: not judged
+    out['scale'], out['length'] = kind, L
+  elif not scales:
+    out['scale'] = 'none'
+  else:
+    out['extra'] = True
+  return out
+
+
 def run(check: Check):
   repo = check.repo
   check.rule('R-SIB.rotation', 'rotation and inverse agree on every ingredient: per-leaf keys by split(rng, len(leaves)) zipped in '
@@ -46,6 +129,10 @@ def run(check: Check):
              'reciprocal square root of that vector\'s length; sign-then-transform vs transform-then-sign; padding by '
              '(power-of-two ceiling - size) zeros and cropping to prod(original shape) before reshaping')
   check.rule('R-KEY', 'per-leaf keys are used linearly')
+  check.rule('R-DIV', 'the rotations divide only by shape-derived lengths (or under a zero guard)')
+  check.rule('R-SCHEDULE', 'the per-axis contraction of walsh_hadamard_transform: einsum subscripts "<all axes>,<i><K>-><all axes with i '
+             'replaced by K>" with K a fresh single-digit label (guarded), or tensordot over axis i followed by moveaxis(-1, i); other '
+             'formulations are not judged')
   check.undecided('that the Kronecker/einsum schedule equals the Sylvester Hadamard matrix for every (length, block size); norm '
                   'preservation; exact invertibility up to rounding - numerical, the larger half of this property')
   rot = repo.func(MOD, 'structured_rotation')
@@ -61,81 +148,85 @@ def run(check: Check):
   for _, rv in ret:
     if isinstance(rv, ast.Tuple) and len(rv.elts) == 2:
       fwd = rv
+  fwd_bypass = [rv for _, rv in ret if rv is not fwd]
   if fwd is None:
     check.inconclusive('R-SIB.rotation', rot, 'return', 'expected (rotated, original shape)')
     return
-  si = _scale_info(rff, fwd.elts[0])
+  F = _analyse(rff, fwd.elts[0])
   f_ok = False
-  f_why = 'scaled transform not recognised'
-  w_name = d_expr = None
-  if si is not None:
-    num, length = si
-    if isinstance(num, ast.Call) and wmean.repo_fn(rff, num) == WHT and num.args:
-      arg = num.args[0]
-      facs = _factors(arg)
-      names = [f.id for f in facs if isinstance(f, ast.Name)]
-      rad = [n for n in names if any(isinstance(d.value, ast.Call) and rff.ext(d.value.func) == 'jax.random.rademacher' for d in rff.defs_for(
-          next(f for f in facs if isinstance(f, ast.Name) and f.id == n)))]
-      vec = [n for n in names if n not in rad]
-      if len(rad) == 1 and len(vec) == 1:
-        w_name = vec[0]
-        rd = next(iter(rff.defs_for(next(f for f in facs if isinstance(f, ast.Name) and f.id == rad[0])))).value
-        shape_ok = len(rd.args) >= 2 and txt(rd.args[1]) == f'{w_name}.shape' and rff.param_of(rd.args[0]) == rng
-        # length of w: w = pad(x_flat, (0, d - size)) -> len = d
-        wdef = [d for d in rff.defs_for(next(f for f in facs if isinstance(f, ast.Name) and f.id == w_name))]
-        pad_ok = False
-        d_name = None
-        for d in wdef:
-          v = d.value
-          if isinstance(v, ast.Call) and rff.ext(v.func) == 'jax.numpy.pad' and len(v.args) == 2 and isinstance(v.args[1], ast.Tuple):
-            lo, hi = v.args[1].elts
-            if isinstance(lo, ast.Constant) and lo.value == 0 and isinstance(hi, ast.BinOp) and isinstance(hi.op, ast.Sub) and isinstance(hi.left, ast.Name):
-              d_name = hi.left.id
-              size_txt = txt(hi.right)
-              flat = v.args[0]
-              flat_ok = any(isinstance(y, ast.Call) and rff.ext(y.func) == 'jax.numpy.reshape' and rff.param_of(y.args[0]) == x for y in rff.expand(flat)) or any(
-                  isinstance(y, ast.Call) and isinstance(y.func, ast.Attribute) and y.func.attr in ('flatten', 'ravel') for y in rff.expand(flat))
-              pad_ok = size_txt in (f'{x}.size', f'{txt(flat)}.size') and flat_ok
-        len_ok = d_name is not None and txt(length) in (d_name, f'{w_name}.size', f'len({w_name})')
-        pow2 = False
-        if d_name:
-          for ds in rff.rd.defs_at.values():
-            for d in ds:
-              if d.name == d_name and isinstance(d.value, ast.BinOp) and isinstance(d.value.op, ast.Pow) and isinstance(
-                  d.value.left, ast.Constant) and d.value.left.value == 2:
-                e = d.value.right
-                pow2 = isinstance(e, ast.Call) and rff.ext(e.func) == 'math.ceil' and isinstance(e.args[0], ast.Call) and rff.ext(
-                    e.args[0].func) == 'math.log2' and '.size' in txt(e.args[0].args[0])
-        f_ok = shape_ok and pad_ok and len_ok and pow2
-        f_why = (f'signs have the shape of the padded vector and come from this leaf\'s key={shape_ok}; zero padding by d - size='
-                 f'{pad_ok}; d = 2**ceil(log2(size))={pow2}; scale 1/sqrt(length of the transformed vector)={len_ok}')
-  check.ob('R-SIB.rotation', rot, 'H(D w) / sqrt(d), w = pad(flatten(x), d - size)', f_ok, f_why, node=fwd)
+  w_name = None
+  if F is None or F['extra']:
+    check.inconclusive('R-SIB.rotation', rot, 'H(D w) / sqrt(d), w = pad(flatten(x), d - size)',
+                       'the rotation is not written as a product/quotient of the transform, the signs and one scale factor: its agreement '
+                       'with the inverse cannot be decided structurally', node=fwd)
+  else:
+    vec = F['vec']
+    w_name = vec.id if isinstance(vec, ast.Name) else None
+    rd = F['sign_def']
+    shape_ok = rd is not None and w_name is not None and len(rd.args) >= 2 and txt(rd.args[1]) == f'{w_name}.shape' and rff.param_of(rd.args[0]) == rng
+    pad_ok = pow2 = False
+    d_name = None
+    if w_name is not None:
+      for d in rff.defs_for(vec):
+        v = d.value
+        if isinstance(v, ast.Call) and rff.ext(v.func) == 'jax.numpy.pad' and len(v.args) == 2 and isinstance(v.args[1], ast.Tuple):
+          lo, hi = v.args[1].elts
+          if isinstance(lo, ast.Constant) and lo.value == 0 and isinstance(hi, ast.BinOp) and isinstance(hi.op, ast.Sub) and isinstance(hi.left, ast.Name):
+            d_name = hi.left.id
+            size_txt = txt(hi.right)
+            flat = v.args[0]
+            flat_ok = any(isinstance(y, ast.Call) and rff.ext(y.func) == 'jax.numpy.reshape' and rff.param_of(y.args[0]) == x for y in rff.expand(flat)) or any(
+                isinstance(y, ast.Call) and isinstance(y.func, ast.Attribute) and y.func.attr in ('flatten', 'ravel') for y in rff.expand(flat))
+            pad_ok = size_txt in (f'{x}.size', f'{txt(flat)}.size') and flat_ok
+    if d_name:
+      for ds in rff.rd.defs_at.values():
+        for d in ds:
+          if d.name == d_name and isinstance(d.value, ast.BinOp) and isinstance(d.value.op, ast.Pow) and isinstance(
+              d.value.left, ast.Constant) and d.value.left.value == 2:
+            e = d.value.right
+            pow2 = isinstance(e, ast.Call) and rff.ext(e.func) == 'math.ceil' and isinstance(e.args[0], ast.Call) and rff.ext(
+                e.args[0].func) == 'math.log2' and '.size' in txt(e.args[0].args[0])
+    len_ok = F['scale'] == 'sqrt' and d_name is not None and txt(F['length']) in (d_name, f'{w_name}.size', f'len({w_name})')
+    f_ok = shape_ok and pad_ok and len_ok and pow2 and F['sign_pos'] in ('inside', 'outside')
+    f_why = (f'signs have the shape of the padded vector and come from this leaf\'s key={shape_ok}; zero padding by d - size='
+             f'{pad_ok}; d = 2**ceil(log2(size))={pow2}; scale is the reciprocal square root of the length of the transformed vector='
+             f'{len_ok} (scale form: {F["scale"]})')
+    check.ob('R-SIB.rotation', rot, 'H(D w) / sqrt(d), w = pad(flatten(x), d - size)', f_ok, f_why, node=fwd)
   shape_ret = isinstance(fwd.elts[1], ast.Call) and txt(fwd.elts[1].args[0]) == f'{x}.shape'
   check.ob('R-SIB.rotation', rot, 'returns the original shape', shape_ret, 'the shape handed to the inverse is the input\'s own shape')
   # ---------------- inverse
-  i_ok = False
-  i_why = 'inverse not recognised'
-  wdefs = [d for ds in iff.rd.defs_at.values() for d in ds if d.kind == 'assign' and d.value is not None and _scale_info(iff, d.value) is not None]
   out_name = None
-  if len(wdefs) == 1:
-    num, length = _scale_info(iff, wdefs[0].value)
-    out_name = wdefs[0].name
-    facs = _factors(num)
-    tr = [f for f in facs if isinstance(f, ast.Call) and wmean.repo_fn(iff, f) == WHT]
-    rads = [f for f in facs if isinstance(f, ast.Name) and any(isinstance(d.value, ast.Call) and iff.ext(d.value.func) == 'jax.random.rademacher'
-                                                              for d in iff.defs_for(f))]
-    if len(tr) == 1 and len(rads) == 1 and len(facs) == 2:
-      t_arg_ok = tr[0].args and iff.param_of(tr[0].args[0]) == ix
-      rd = next(iter(iff.defs_for(rads[0]))).value
-      shape_ok = len(rd.args) >= 2 and txt(rd.args[1]) == f'{ix}.shape' and iff.param_of(rd.args[0]) == irng
-      len_ok = txt(length) in (f'{ix}.size', f'len({ix})', f'{ix}.shape[0]')
-      i_ok = t_arg_ok and shape_ok and len_ok
-      i_why = (f'transform applied to the rotated vector first, signs after={t_arg_ok}; signs of the rotated vector\'s shape from the '
-               f'same key={shape_ok}; scale 1/sqrt(its length)={len_ok}')
-  check.ob('R-SIB.rotation', inv, 'D H(x) / sqrt(len(x))', i_ok, i_why)
+  cands = []
+  for ds in iff.rd.defs_at.values():
+    for d in ds:
+      if d.kind == 'assign' and d.value is not None and not d.index:
+        G = _analyse(iff, d.value)
+        if G is not None:
+          cands.append((d, G))
+  if len(cands) != 1 or cands[0][1]['extra']:
+    check.inconclusive('R-SIB.rotation', inv, 'D H(x) / sqrt(len(x))',
+                       'the inverse is not written as a product/quotient of the transform, the signs and one scale factor: its agreement '
+                       'with the rotation cannot be decided structurally')
+  else:
+    d0, G = cands[0]
+    out_name = d0.name
+    t_arg_ok = iff.param_of(G['vec']) == ix
+    rd = G['sign_def']
+    shape_ok = rd is not None and len(rd.args) >= 2 and txt(rd.args[1]) == f'{ix}.shape' and iff.param_of(rd.args[0]) == irng
+    len_ok = G['scale'] == 'sqrt' and txt(G['length']) in (f'{ix}.size', f'len({ix})', f'{ix}.shape[0]')
+    # (H D)^-1 = D H / d: the signs are applied on the opposite side of the transform from the forward direction
+    fpos = F['sign_pos'] if F is not None else None
+    opp = (fpos, G['sign_pos']) in (('inside', 'outside'), ('outside', 'inside'))
+    i_ok = bool(t_arg_ok and shape_ok and len_ok and opp)
+    check.ob('R-SIB.rotation', inv, 'D H(x) / sqrt(len(x))', i_ok,
+             f'the transform is applied to the rotated vector={bool(t_arg_ok)}; signs of the rotated vector\'s shape from the same key={shape_ok}; '
+             f'signs on the opposite side of the transform from the rotation (rotation: {fpos}, inverse: {G["sign_pos"]})={opp}; scale is the '
+             f'reciprocal square root of its length={len_ok} (scale form: {G["scale"]})')
   # crop + reshape
   crop_ok = False
+  inv_bypass = []
   for _, rv in iff.returns():
+    this_ok = False
     if isinstance(rv, ast.Call) and iff.ext(rv.func) == 'jax.numpy.reshape' and len(rv.args) == 2 and iff.param_of(rv.args[1]) == ishape:
       for y in iff.expand(rv.args[0]):
         # w.take(arange(prod(shape)))  or  w[:prod(shape)]
@@ -143,7 +234,22 @@ def run(check: Check):
         uses_out = out_name is not None and t.startswith(out_name)
         size_defs = [d for ds in iff.rd.defs_at.values() for d in ds if isinstance(d.value, ast.Call) and iff.ext(d.value.func) in (
             'jax.numpy.prod', 'numpy.prod') and iff.param_of(d.value.args[0]) == ishape]
-        crop_ok = uses_out and bool(size_defs) and size_defs[0].name in t
+        this_ok = this_ok or (uses_out and bool(size_defs) and size_defs[0].name in t)
+    crop_ok = crop_ok or this_ok
+    if not this_ok:
+      inv_bypass.append(rv)
+  # sibling agreement: a shortcut path in one direction that the other direction does not have cannot be its inverse
+  if len(inv_bypass) != len(fwd_bypass):
+    who, extra = (inv, inv_bypass) if len(inv_bypass) > len(fwd_bypass) else (rot, fwd_bypass)
+    for rv in extra:
+      check.ob('R-SIB.rotation.paths', who, f'return {txt(rv)[:60]}', False,
+               'this return bypasses the signed, scaled transform while the opposite direction has no matching shortcut: on the '
+               'inputs that take it, rotation and inverse no longer undo each other', node=rv)
+  elif inv_bypass:
+    check.undecided(f'{len(inv_bypass)} shortcut return(s) in both rotation directions: whether they are mutually inverse is not judged')
+  else:
+    check.ob('R-SIB.rotation.paths', inv, 'no shortcut returns', True, 'both directions always go through the scaled, signed transform',
+             nontrivial=False)
   check.ob('R-SIB.rotation', inv, 'reshape(w[:prod(original_shape)], original_shape)', crop_ok,
            'the padding is cut off (first prod(shape) entries) and the original shape restored')
   # ---------------- pytree wrappers
@@ -203,3 +309,107 @@ def run(check: Check):
   check.ob('R-SIB.rotation', wh, 'small_n <= 1 -> ValueError; hadamard_matrix(d) per axis size d', guard and had,
            'degenerate block sizes are rejected and each reshaped axis of size d is multiplied by the Hadamard matrix of order d',
            nontrivial=False)
+  _schedule(check, wh, wff)
+  # finiteness: rotations divide only by lengths (shape-derived) - a data-dependent denominator gives 0/0 on an all-zero leaf
+  from fjsa.rules.div import DivAnalysis
+  dv = DivAnalysis(repo)
+  n_div = 0
+  for fi in repo.module(MOD).functions():
+    for st in dv.sites(fi):
+      n_div += 1
+      ok = st.cls != 'DATA' or st.guard is not None
+      check.ob('R-DIV', fi, txt(st.node)[:90], ok,
+               f'denominator {txt(st.denom)[:40]} is {st.cls} ({st.why}); guard: {st.guard}' +
+               ('' if ok else ' - an all-zero leaf is rotated to NaN and cannot be rotated back'), node=st.node)
+  check.floor('R-DIV', 'division sites in walsh_hadamard.py', n_div, 2)
+
+
+def _schedule(check: Check, wh: FuncInfo, wff: FuncFlow):
+  """The per-axis contraction: einsum '<all axes>,<axis i><fresh K> -> <all axes with i replaced by K>' (the fresh label is a
+  single digit), or tensordot over axis i followed by moveaxis(-1, i). Other formulations are not judged."""
+  loops = [n.ast for n in wff.cfg.nodes if n.kind == 'for' and isinstance(n.ast.iter, ast.Call) and wff.ext(n.ast.iter.func) == 'builtins.enumerate']
+  if len(loops) != 1 or not isinstance(loops[0].target, ast.Tuple):
+    check.undecided('per-axis loop not in the enumerate(shape) form: the contraction schedule is not judged')
+    return
+  lp = loops[0]
+  I = lp.target.elts[0].id
+  calls = [x for st in lp.body for x in ast.walk(st) if isinstance(x, ast.Call)]
+  ein = [c for c in calls if wff.ext(c.func) == 'jax.numpy.einsum']
+  td = [c for c in calls if wff.ext(c.func) == 'jax.numpy.tensordot']
+  if ein:
+    c = ein[0]
+    ok, why = False, 'subscripts not recognised'
+
+    def local_def(name_node):
+      ds = [d for d in wff.defs_for(name_node) if d.value is not None]
+      return ds[0].value if len(ds) == 1 else None
+
+    spec = local_def(c.args[0]) if isinstance(c.args[0], ast.Name) else c.args[0]
+    if isinstance(spec, ast.JoinedStr):
+      parts = [(v.value if isinstance(v, ast.Constant) else v.value) for v in spec.values]
+      shape_ok = (len(parts) == 5 and isinstance(parts[1], str) and parts[1] == ',' and isinstance(parts[3], str) and parts[3] == '->' and all(
+          isinstance(parts[k], ast.Name) for k in (0, 2, 4)))
+      if shape_ok:
+        A, B, C = (local_def(parts[k]) for k in (0, 2, 4))
+        # A: ''.join(str(j) for j in range(N))
+        a_ok = False
+        N = None
+        if isinstance(A, ast.Call) and isinstance(A.func, ast.Attribute) and A.func.attr == 'join' and isinstance(A.func.value, ast.Constant) and A.func.value.value == '' \
+            and A.args and isinstance(A.args[0], (ast.GeneratorExp, ast.ListComp)):
+          g = A.args[0].generators[0]
+          if isinstance(g.iter, ast.Call) and wff.ext(g.iter.func) == 'builtins.range' and len(g.iter.args) == 1 and txt(A.args[0].elt) == f'str({txt(g.target)})':
+            N = g.iter.args[0]
+            nd = local_def(N) if isinstance(N, ast.Name) else None
+            a_ok = nd is not None and isinstance(nd, ast.Call) and wff.ext(nd.func) == 'builtins.len'
+        # B: f'{i}{K}' in either order (Hadamard matrices are symmetric)
+        b_ok, K = False, None
+        if isinstance(B, ast.JoinedStr) and len(B.values) == 2 and all(isinstance(v, ast.FormattedValue) for v in B.values):
+          vs = [v.value for v in B.values]
+          for a, b in ((vs[0], vs[1]), (vs[1], vs[0])):
+            if isinstance(a, ast.Name) and a.id == I:
+              K = b
+              b_ok = True
+        # C: A.replace(str(i), str(K), 1)
+        c_ok = False
+        if K is not None and isinstance(C, ast.Call) and isinstance(C.func, ast.Attribute) and C.func.attr == 'replace' and isinstance(C.func.value, ast.Name) and \
+            isinstance(parts[0], ast.Name) and C.func.value.id == parts[0].id and len(C.args) >= 2:
+          c_ok = txt(C.args[0]) == f'str({I})' and txt(C.args[1]) == f'str({txt(K)})'
+        # K is a label not used by y: N + c with c >= 0 (N itself is unused by range(N)), and single digit: guard K >= 10 -> raise
+        k_fresh = False
+        if K is not None and N is not None:
+          kt, nt = txt(K), txt(N)
+          if kt == nt:
+            k_fresh = True
+          elif isinstance(K, ast.BinOp) and isinstance(K.op, ast.Add) and txt(K.left) == nt and isinstance(K.right, ast.Constant) and isinstance(K.right.value, int) and K.right.value >= 0:
+            k_fresh = True
+        guard = False
+        if K is not None:
+          for n in wff.cfg.nodes:
+            if n.kind == 'if' and isinstance(n.ast.test, ast.Compare) and len(n.ast.test.ops) == 1 and any(isinstance(s_, ast.Raise) for s_ in n.ast.body):
+              t = n.ast.test
+              if txt(t.left) == txt(K) and isinstance(t.comparators[0], ast.Constant):
+                v = t.comparators[0].value
+                guard = (isinstance(t.ops[0], ast.GtE) and v <= 10) or (isinstance(t.ops[0], ast.Gt) and v <= 9)
+        args_ok = len(c.args) >= 3 and isinstance(c.args[2], ast.Subscript) and txt(c.args[2].slice) == lp.target.elts[1].id
+        ok = a_ok and b_ok and c_ok and k_fresh and guard and args_ok
+        why = (f'y carries all axes={a_ok}; the Hadamard factor carries axis i and one fresh label={b_ok}; the output replaces axis i by '
+               f'that label in place={c_ok}; the label is unused by y={k_fresh} and guaranteed to be a single digit (guard raises)={guard}; '
+               f'the factor is the one for this axis size={args_ok}')
+    if spec is not None and isinstance(spec, ast.JoinedStr):
+      check.ob('R-SCHEDULE', wh, 'einsum("<axes>,<i><K>-><axes with i:=K>", y, H_d)', ok, why, node=c)
+  elif td:
+    c = td[0]
+    # tensordot(y, H, axes=[[i],[0 or 1]]) moves the transformed axis to the end: it has to be moved (not swapped) back to i
+    restore = [x for x in calls if wff.ext(x.func) in ('jax.numpy.moveaxis', 'jax.numpy.swapaxes', 'jax.numpy.transpose', 'jax.numpy.rollaxis')]
+    if restore:
+      r = restore[0]
+      kind = wff.ext(r.func).split('.')[-1]
+      if kind == 'moveaxis':
+        ok = len(r.args) == 3 and txt(r.args[1]) == '-1' and txt(r.args[2]) == I
+        check.ob('R-SCHEDULE', wh, txt(r)[:60], ok, 'after tensordot the transformed axis is last; moveaxis(-1, i) restores the axis order', node=r)
+      elif kind == 'swapaxes':
+        check.ob('R-SCHEDULE', wh, txt(r)[:60], False,
+                 'after tensordot the transformed axis is last; swapping it with axis i also moves the axis that was last, so with three '
+                 'or more factors the axes end up permuted: the result is not the Walsh-Hadamard transform', node=r)
+    else:
+      check.ob('R-SCHEDULE', wh, txt(c)[:60], False, 'tensordot moves the contracted axis to the end and nothing moves it back', node=c)
